@@ -109,6 +109,16 @@ CLAIMED["C20"] = (
     "Tolerances derived from quad's documented accuracy; measured envelope only next to the non-analytic points.",
     "DESIGN.md 3/C20, 7.3")
 
+CLAIMED["C18"] = (
+    "Hypothesis RuleBasedStateMachine over evaluate/derivative/extend/mode/adaptive/write-read histories for return "
+    "dimension 1-4 and all input shapes; reference model of modes and adaptive counters; harness-built scipy "
+    "CubicSpline on the observed table as oracle; table invariants after every step",
+    "Output shape, inside-range spline values, per-side out-of-range semantics for all 16 mode pairs, derivatives, "
+    "strictly increasing finite tables, individual NaN rows, agreement with f and the write/read round trip held "
+    "after every step of every generated history.",
+    "Smooth cheap component functions; adaptive trigger count modelled as bounds where the documentation leaves it open.",
+    "DESIGN.md 3/C18, 7.3")
+
 PENDING_REASON = "check not built yet in this session; see DESIGN.md section 3 for the planned oracle"
 
 
